@@ -13,6 +13,11 @@ use crate::{
 };
 
 pub fn encode(lens: &[usize], src: &[u8]) -> io::Result<Vec<u8>> {
+    // A record without quality scores does not take part in the model: the format starts a new
+    // record when the previous one has no scores left, which cannot express an empty record.
+    let lens: Vec<_> = lens.iter().copied().filter(|&len| len > 0).collect();
+    let lens = &lens[..];
+
     let mut dst = Vec::new();
 
     let len =
